@@ -275,6 +275,8 @@ def expand(e, decls, depth=0):
         d = decls.get(e['id'])
         if d is not None and d.get('const') and not d.get('ref') and d.get('init') is not None:
             return expand(d['init'], decls, depth + 1)
+        if d is not None and d.get('ref') and d.get('ty', '').startswith('const ') and d.get('init') is not None and d.get('_range') is None:
+            return expand(d['init'], decls, depth + 1)      # read-only alias
         return e
     out = dict(e)
     for key in EXPR_CHILD_KEYS:
